@@ -98,7 +98,8 @@ theorem CodeAt.whole (code : List Instr) : CodeAt code 0 code := ⟨[], [], by s
 `Runs env code frag c l vs`: wherever `frag` is placed in `code`, started with the pc at its first instruction and a
 loop memory that holds the loop variables of `l` (`MemInv c l`), the VM reaches the end of the fragment having
 pushed `vs` (top first); the stack below is untouched and so are the memory slots of the enclosing loops
-(slots below `4 * depth`); slots of deeper loops and the iterator table may have changed. -/
+(slots below `4 * depth`) and the iterators that already exist; slots of deeper loops may have changed and new
+iterators may have been appended. -/
 
 /-- `m'` agrees with `m` on the slots below `lo` -/
 def Agree (lo : Nat) (m' m : List Int) : Prop := (∀ k, k < lo → getM m' k = getM m k) ∧ m'.length = m.length
@@ -127,19 +128,19 @@ theorem MemInv.stable {c : Ctx} {l : LEnv} {m m' : List Int} (h : MemInv c l m)
 
 def Runs (env : Env) (code : List Instr) (frag : List Instr) (c : Ctx) (l : LEnv) (vs : List Int) : Prop :=
   ∀ pc st mem its, CodeAt code pc frag → MemInv c l mem → mem.length = 20 →
-    ∃ mem' its', Steps env code ⟨pc, st, mem, its⟩ ⟨pc + frag.length, vs ++ st, mem', its'⟩ ∧
+    ∃ mem' ext, Steps env code ⟨pc, st, mem, its⟩ ⟨pc + frag.length, vs ++ st, mem', its ++ ext⟩ ∧
       Agree (4 * c.vars.length) mem' mem
 
 theorem Runs.nil (env : Env) (code : List Instr) (c : Ctx) (l : LEnv) : Runs env code [] c l [] := by
   intro pc st mem its _ _ _
-  exact ⟨mem, its, by simpa using Steps.refl env code _, Agree.refl _ _⟩
+  exact ⟨mem, [], by simpa using Steps.refl env code _, Agree.refl _ _⟩
 
 theorem Runs.seq {env : Env} {code f1 f2 : List Instr} {c : Ctx} {l : LEnv} {v1 v2 : List Int}
     (h1 : Runs env code f1 c l v1) (h2 : Runs env code f2 c l v2) : Runs env code (f1 ++ f2) c l (v2 ++ v1) := by
   intro pc st mem its hc hP hlen
-  obtain ⟨m1, i1, s1, a1⟩ := h1 pc st mem its hc.left hP hlen
-  obtain ⟨m2, i2, s2, a2⟩ := h2 (pc + f1.length) (v1 ++ st) m1 i1 hc.right (hP.stable a1) (a1.2.trans hlen)
-  refine ⟨m2, i2, ?_, a2.trans a1⟩
+  obtain ⟨m1, e1, s1, a1⟩ := h1 pc st mem its hc.left hP hlen
+  obtain ⟨m2, e2, s2, a2⟩ := h2 (pc + f1.length) (v1 ++ st) m1 (its ++ e1) hc.right (hP.stable a1) (a1.2.trans hlen)
+  refine ⟨m2, e1 ++ e2, ?_, a2.trans a1⟩
   have := Steps.trans s1 s2
   simpa [Nat.add_assoc] using this
 
@@ -154,7 +155,7 @@ theorem Runs.push1 {env : Env} {code : List Instr} {c : Ctx} {l : LEnv} (i : Ins
     (h : ∀ pc st mem its, MemInv c l mem → step env i ⟨pc, st, mem, its⟩ = some ⟨pc + 1, v :: st, mem, its⟩) :
     Runs env code [i] c l [v] := by
   intro pc st mem its hc hP _
-  exact ⟨mem, its, Steps.one (by simpa using hc.head) (h pc st mem its hP), Agree.refl _ _⟩
+  exact ⟨mem, [], Steps.one (by simpa using hc.head) (by simpa using h pc st mem its hP), Agree.refl _ _⟩
 
 /-- an instruction that replaces the words produced by `f` by one word -/
 theorem Runs.op {env : Env} {code f : List Instr} {c : Ctx} {l : LEnv} (i : Instr) (args : List Int) (r : Int)
@@ -162,9 +163,9 @@ theorem Runs.op {env : Env} {code f : List Instr} {c : Ctx} {l : LEnv} (i : Inst
     (h : ∀ pc st mem its, step env i ⟨pc, args ++ st, mem, its⟩ = some ⟨pc + 1, r :: st, mem, its⟩) :
     Runs env code (f ++ [i]) c l [r] := by
   intro pc st mem its hc hP hlen
-  obtain ⟨m1, i1, s1, a1⟩ := hf pc st mem its hc.left hP hlen
-  refine ⟨m1, i1, ?_, a1⟩
-  have s2 := Steps.one (s := ⟨pc + f.length, args ++ st, m1, i1⟩) (by simpa using hc.right.head) (h _ st m1 i1)
+  obtain ⟨m1, e1, s1, a1⟩ := hf pc st mem its hc.left hP hlen
+  refine ⟨m1, e1, ?_, a1⟩
+  have s2 := Steps.one (s := ⟨pc + f.length, args ++ st, m1, its ++ e1⟩) (by simpa using hc.right.head) (h _ st m1 _)
   have := Steps.trans s1 s2
   simpa [Nat.add_assoc] using this
 
